@@ -172,8 +172,41 @@ fn c04_all() {
     } }
     let e = "package p ; enum E { A = 1 , B , C = 3 , }";
     for l in layouts(&e.split(' ').collect::<Vec<_>>()) { docs += 1; check_doc(&l, &mut out); }
+    // syntax diagnostics: an unlexable character gets an empty range exactly at that character; an unexpected token is
+    // covered exactly; an unexpected end of input sits right after the last token - whatever the spacing around them
+    for ch in ["#", "$", "\u{e9}", "\u{4e2d}", "\u{1f600}"].iter() { for pad in ["", " ", "\n\t", " /* c \u{e9} */ "].iter() {
+        let head = format!("package p;{}interface I {{{}", pad, pad);
+        let src = format!("{}{}{}void f(); }}", head, ch, pad);
+        docs += 1;
+        let mut p = Parser::new(); p.add_content(0, &src); let res = p.validate(); let fr = &res[&0];
+        for d in &fr.diagnostics { wf(&src, &d.range, "diagnostic", &mut out); }
+        ev();
+        if !fr.diagnostics.iter().any(|d| d.range.start.offset == head.len() && d.range.end.offset == head.len()) {
+            out.push(format!("WITNESS unlexable character {:?} at offset {}: no diagnostic with the empty range at that offset (got {:?}); source: {:?}", ch, head.len(), fr.diagnostics.iter().map(|d| (d.range.start.offset, d.range.end.offset)).collect::<Vec<_>>(), src));
+        }
+    } }
+    for pad in ["", " ", "\n\t", " /* c \u{e9} */ "].iter() {
+        let head = format!("package p;{}interface I {{{}void f(){}", pad, pad, pad);
+        let src = format!("{}{{{}g(); }}", head, pad);          // `;` missing: the `{` is the unexpected token
+        docs += 1;
+        let mut p = Parser::new(); p.add_content(0, &src); let res = p.validate(); let fr = &res[&0];
+        for d in &fr.diagnostics { wf(&src, &d.range, "diagnostic", &mut out); }
+        ev();
+        if !fr.diagnostics.iter().any(|d| d.range.start.offset == head.len() && d.range.end.offset == head.len() + 1) {
+            out.push(format!("WITNESS unexpected token `{{` at {}..{}: no diagnostic covering exactly it (got {:?}); source: {:?}", head.len(), head.len() + 1, fr.diagnostics.iter().map(|d| (d.range.start.offset, d.range.end.offset)).collect::<Vec<_>>(), src));
+        }
+        let body = format!("package p;{}interface I {{{}void f()", pad, pad);
+        let src2 = format!("{}{}", body, pad);                   // input ends after `)`
+        docs += 1;
+        let mut p = Parser::new(); p.add_content(0, &src2); let res = p.validate(); let fr = &res[&0];
+        for d in &fr.diagnostics { wf(&src2, &d.range, "diagnostic", &mut out); }
+        ev();
+        if !fr.diagnostics.iter().any(|d| d.range.start.offset == d.range.end.offset && d.range.start.offset >= body.len()) {
+            out.push(format!("WITNESS unexpected end of input: no empty-range diagnostic after the last token (offset {}), got {:?}; source: {:?}", body.len(), fr.diagnostics.iter().map(|d| (d.range.start.offset, d.range.end.offset)).collect::<Vec<_>>(), src2));
+        }
+    }
     out.sort(); out.dedup();
     for w in out.iter().take(12) { println!("{}", w.chars().take(700).collect::<String>()); }
-    println!("ORACLE-STATS evaluations={} distinct={} rule=each range comparison (well-formedness, line/col, name text, nesting, sibling order) on 12 x 6 type shapes x 2 frames x 6 layouts + enum", unsafe { EVALS }, docs);
+    println!("ORACLE-STATS evaluations={} distinct={} rule=each range comparison (well-formedness, line/col, name text, nesting, sibling order) on 12 x 6 type shapes x 2 frames x 6 layouts + enum + 28 malformed documents (unlexable character / unexpected token / end of input, 4 paddings)", unsafe { EVALS }, docs);
     assert!(out.is_empty(), "witness found");
 }
